@@ -17,6 +17,7 @@ import (
 	"github.com/lindb/lindb/internal/vcrashfs"
 	"github.com/lindb/lindb/internal/venum"
 	"github.com/lindb/lindb/internal/vevid"
+	vos "github.com/lindb/lindb/internal/vos"
 	"github.com/lindb/lindb/kv"
 	"github.com/lindb/lindb/kv/table"
 	"github.com/lindb/lindb/kv/version"
@@ -212,6 +213,8 @@ func (w *wWriter) Reset(fileName string) error {
 }
 
 func installSeams() {
+	// every os-level mutation of the rewritten packages is a crash point as well (also calls a later change adds)
+	vos.Hook = func(op, path string) { rec.At("os." + op + " " + filepath.Base(path)) }
 	ks := kv.VerifGetSeams()
 	kv.VerifSetSeams(kv.VerifSeams{
 		RemoveDir: func(p string) error { err := ks.RemoveDir(p); rec.At("removeDir " + filepath.Base(p)); return err },
